@@ -129,7 +129,7 @@ def _spec_hash(files, cfg, extra):
 
 
 def run_tlc(module, cfg, scratch, data_files=None, workers=16, timeout=1800, simulate=None, cache=False, depth=None, seed=None,
-            xss="64m", keep_raw=False):
+            xss="64m", keep_raw=False, defs=None):
     """Runs TLC on spec/<module>.tla with the given cfg text in a scratch copy of /verif/spec.
 
     Records printed by the specification with PrintT(ToJson(..)) are returned parsed. With cache=True the parsed output is
@@ -137,7 +137,7 @@ def run_tlc(module, cfg, scratch, data_files=None, workers=16, timeout=1800, sim
     a function of the specification only, never of the repository."""
     specdir = os.path.join(VERIF, "spec")
     files = [os.path.join(specdir, f) for f in os.listdir(specdir) if f.endswith(".tla")]
-    extra = {"module": module, "simulate": simulate, "depth": depth, "seed": seed, "workers": workers if simulate else 0}
+    extra = {"module": module, "simulate": simulate, "depth": depth, "seed": seed, "workers": workers if simulate else 0, "defs": defs}
     res = TLCResult()
     ck = None
     if cache and not data_files:
@@ -155,6 +155,12 @@ def run_tlc(module, cfg, scratch, data_files=None, workers=16, timeout=1800, sim
         shutil.copy(f, wd)
     for name, path in (data_files or {}).items():
         shutil.copy(path, os.path.join(wd, name))
+    if defs:
+        # a wrapper module with run-specific constant definitions (cfg files cannot express tuples); TLC re-evaluates
+        # zero-arity definitions at every reference, literal tuples are the cheap way to hand over sequences
+        base = module
+        module = module + "Run"
+        open(os.path.join(wd, module + ".tla"), "w").write("---- MODULE %s ----\nEXTENDS %s\n%s\n====\n" % (module, base, defs))
     open(os.path.join(wd, module + ".cfg"), "w").write(cfg)
     cmd = ["java", "-XX:+UseParallelGC", "-Xss" + xss, "-cp", TLA_CP, "tlc2.TLC", "-workers", str(workers), "-metadir", os.path.join(wd, "md"),
            "-config", module + ".cfg"]
